@@ -369,6 +369,35 @@ func c02Corruptions(sealed string, raw []byte, full bool) []c02Candidate {
 		add("insert-LF", sealed[:i]+"\n"+sealed[i:])
 		add("insert-CR", sealed[:i]+"\r"+sealed[i:])
 	}
+	// other spellings of the same string: percent-encoding (of one character at every sampled position,
+	// of every character, lower-case hex), HTML entities, double quotes, a leading BOM
+	pct := func(b byte, lower bool) string {
+		if lower {
+			return fmt.Sprintf("%%%02x", b)
+		}
+		return fmt.Sprintf("%%%02X", b)
+	}
+	for i := 0; i < len(sealed); i++ {
+		if i%step != 0 && i < len(sealed)-4 {
+			continue
+		}
+		add("percent-encode-one-char", sealed[:i]+pct(sealed[i], false)+sealed[i+1:])
+	}
+	all, allLower := "", ""
+	for i := 0; i < len(sealed); i++ {
+		all += pct(sealed[i], false)
+		allLower += pct(sealed[i], true)
+	}
+	add("percent-encode-all", all)
+	add("percent-encode-all-lower-hex", allLower)
+	add("percent-encode-twice", strings.ReplaceAll(all, "%", "%25"))
+	if len(sealed) > 0 {
+		add("html-entity-first-char", fmt.Sprintf("&#%d;", sealed[0])+sealed[1:])
+	}
+	add("double-quoted", `"`+sealed+`"`)
+	add("bom-prefixed", "\xef\xbb\xbf"+sealed)
+	add("plus-for-dash", strings.ReplaceAll(sealed, "-", "+"))
+	add("upper-cased", strings.ToUpper(sealed))
 	// re-encodings
 	add("re-encode-padded", base64.URLEncoding.EncodeToString(raw))
 	add("re-encode-std", base64.RawStdEncoding.EncodeToString(raw))
@@ -384,7 +413,7 @@ func init() {
 		ID:    "C02",
 		Level: "exploration",
 		Rule: "for 6 genuine values (empty session, small session, unicode session, 50-group session with long tokens, 300-group session of >16 KiB, flow record) sealed by the real MiscreantCipher under 32- and 64-byte keys and presented to 8 other keys (unrelated keys and neighbours differing in the first / last / 33rd byte or in one half): every single-bit flip of every byte, every prefix/suffix truncation of the string and of the bytes, " +
-			"extension by every byte value and every alphabet character at either end, every single-character substitution from the base64url alphabet plus '=+/ LF', CR/LF insertion at every position, re-encodings and re-padding, presentation under every other key (thorough: all double-bit flips of two values); " +
+			"extension by every byte value and every alphabet character at either end, every single-character substitution from the base64url alphabet plus '=+/ LF', CR/LF insertion at every position, re-encodings and re-padding, other spellings (percent-encoding of one / every character, twice, lower-case hex; an HTML entity; double quotes; a BOM; + for -; upper case), presentation under every other key (thorough: all double-bit flips of two values); " +
 			"each candidate goes to Cipher.Unmarshal, sessions.UnmarshalSession and CookieStore.LoadSession. Oracle: a candidate that is not a string sso itself produced must be rejected with an error and yield no data; genuine values round-trip deep-equal; seals are pairwise distinct (1200 seals of two values, 8 of the others); sealed bytes contain neither plaintext fields nor the compressed plaintext. " +
 			"distinct_nontrivial = distinct (corruption operator, API, rejected?) triples",
 		Assumptions:    []string{"AES-CMAC-SIV (miscreant) is trusted: unforgeability against arbitrary strings is not decided by enumeration", "positions of long values are sub-sampled every 7th character in the quick tier (all positions in thorough)"},
